@@ -103,7 +103,9 @@ FORMULAS = {
     "C06": ["Gen.needWith_is_code", "Gen.zProd_is_code", "Gen.altShare_is_code", "Gen.ordersFrom_is_code", "Gen.gapOpen_is_code", "Gen.goal_is_code"],
     "C04": ["Gen.deliverCell_is_code", "Gen.deliveries_are_code"],
     "C05": ["Gen.stockUse_is_code", "Gen.stockUpdated_is_code", "Gen.deliveries_are_code"],
-    "C08": ["Gen.subBlock_is_code", "Gen.deliverCell_is_code"],
+    "C08": ["Gen.subBlock_is_code", "Gen.deliverCell_is_code", "Gen.settle_indus_is_code", "Gen.settle_house_is_code", "Gen.settle_same_rule",
+            "Gen.presented_is_code"],
+    "C11": ["Gen.presented_is_code", "Gen.settle_same_rule"],
     "C07": ["Gen.capacity_is_code"],
     "C09": ["Gen.linear_is_code", "Gen.convexe_is_code", "Gen.convexe_scaled_is_code", "Gen.cellwise_linear_is_code",
             "Gen.cellwise_convexe_is_code", "Gen.cellwise_convexe_scaled_is_code"],
@@ -119,6 +121,8 @@ FORMULA_MODULE = {
     "Gen.stockUpdated_is_code": "FormulasDistribute", "Gen.subBlock_is_code": "FormulasDistribute",
     "Gen.needWith_is_code": "FormulasOrders", "Gen.zProd_is_code": "FormulasOrders", "Gen.altShare_is_code": "FormulasOrders",
     "Gen.ordersFrom_is_code": "FormulasOrders", "Gen.gapOpen_is_code": "FormulasOrders", "Gen.goal_is_code": "FormulasOrders",
+    "Gen.settle_indus_is_code": "FormulasLedger", "Gen.settle_house_is_code": "FormulasLedger", "Gen.settle_same_rule": "FormulasLedger",
+    "Gen.presented_is_code": "FormulasLedger",
     "Gen.linear_is_code": "FormulasCurves", "Gen.convexe_is_code": "FormulasCurves", "Gen.convexe_scaled_is_code": "FormulasCurves",
     "Gen.cellwise_linear_is_code": "FormulasCurves", "Gen.cellwise_convexe_is_code": "FormulasCurves",
     "Gen.cellwise_convexe_scaled_is_code": "FormulasCurves",
